@@ -620,7 +620,7 @@ func runSpecsInChildren(r *Run, all []injSpec) (chan []injResult, []string) {
 }
 
 func runC05(r *Run, rng *rand.Rand, thorough bool) {
-	r.Rule = "fault injection: one party deviates by altering one field of one message type (+1, random same-size, the value of another party's corresponding message, emptied, list removed) or by replaying another party's whole message; every protocol, every position, every byte field found by protobuf reflection (each element of list fields, sampled for long lists); injections run in child processes so that a crash in a library goroutine is attributed to its injection; non-trivial = one applied injection; direct assertions: no honest output is invalid, every reported error names nobody but the deviator, a detected alteration names exactly the deviator, no crash"
+	r.Rule = "fault injection: one party deviates by altering one field of one message type (+1, random same-size, the value of another party's corresponding message, emptied, list removed) or by replaying another party's whole message; every protocol, every position, every byte field found by protobuf reflection (each element of list fields, sampled for long lists), for point-to-point messages also in the copy for ONE recipient only; injections run in child processes so that a crash in a library goroutine is attributed to its injection; non-trivial = one applied injection; the modelled round bodies (EdDSA keygen r3 and signing r3; ECDSA keygen r2/r3, signing r2/r3/5/7/9, resharing new-member r4/r5) re-judge what every honest party concluded in tampered runs; direct assertions: no honest output is invalid, an honest old member's share is erased only if every honest new member emitted key data, every reported error names nobody but the deviator, a detected alteration names exactly the deviator, no crash"
 	blameCorrespondence(r, rng, thorough)
 	blameCorrespondenceSg(r, rng, thorough)
 	blameCorrespondenceEc(r, rng, thorough)
